@@ -406,6 +406,11 @@ def model_undictify_flat(ctx, a, res, rec):
     except ModelRaises:
         return _unjudged(rec, res)
     if isinstance(res, BaseException):
+        try:
+            m_undictify(doc)
+        except ModelRaises:
+            # a helper that looks deeper than one level (which C17 does not forbid) meets a malformed notation there
+            return _unjudged(rec, res)
         return _viol("load-failed", f"undictify_complex_values of a well-formed dictionary raised {type(res).__name__}")
     d = _same_doc(res, exp)
     if d:
@@ -556,11 +561,51 @@ def _expected_from_store(ctx, rec):
     return d
 
 
+def _judge_unacknowledged(ctx, a, res, rec):
+    """a JSON file whose last dump failed or was interrupted: the load may raise, but a document it does return was
+    written there (the last acknowledged one or one a writer since then tried to write) - "loading describes exactly
+    what was written".  Only for JSON documents with a container at the root (a cut-off JSON container never parses,
+    so the pinned write-in-place-after-truncation dump satisfies this by construction; a cut-off YAML document or a
+    cut-off bare number does parse, and nothing is said about those).  No verdict when writers overlapped, the file
+    was removed, or a candidate is unknown or malformed."""
+    from . import engine
+    cands = rec.get("saw_cands")
+    if not cands or isinstance(res, BaseException) or not a["path"].endswith(".json"):
+        return None
+    idx = ctx.model_state.get("step_index")
+    if idx is None:
+        idx = ctx.model_state["step_index"] = engine.index_steps(ctx.plan)
+    exps = []
+    for c in cands:
+        s = idx.get(c)
+        if s is None or s["op"] not in ("ld.dump", "fs.put"):
+            return None
+        o = _origin(ctx, s["a"]["doc"])
+        if o is None:
+            return None
+        try:
+            fresh = _fresh(ctx, o)
+            if not isinstance(fresh, (dict, list)):
+                return None
+            exps.append((o, m_undictify(fresh)))
+        except ModelRaises:
+            return None
+    ctx.probe("load_after_failed_dump_returned_a_document")
+    diffs = []
+    for o, e in exps:
+        d = _same_doc(res, e)
+        if not d:
+            _set_doc_origin(ctx, rec, o)
+            return None
+        diffs.append(str(d))
+    return _viol("load-after-failed-dump-neither-old-nor-new", " | ".join(diffs)[:400])
+
+
 def model_load(ctx, a, res, rec):
     """acknowledged dump then load returns the document; under a read fault: raise or exactly it"""
     src = _expected_from_store(ctx, rec)
     if src is None:
-        return None                       # absent / unacknowledged content: nothing is promised
+        return _judge_unacknowledged(ctx, a, res, rec)
     _set_doc_origin(ctx, rec, src["doc"])
     fmt = a["path"].rsplit(".", 1)[-1]
     if fmt not in ("json", "yaml", "yml"):
